@@ -11,7 +11,7 @@ std::unique_ptr<NodeResult> EnumDefineNode::evaluate(PSC::Context &ctx) {
     if (ctx.isIdentifierType(name, false))
         throw PSC::RedefinitionError(token, ctx, name.value);
 
-    PSC::EnumTypeDefinition definition(name.value, std::move(values));
+    PSC::EnumTypeDefinition definition(name.value, std::vector<std::string>(values));
     ctx.createEnumDefinition(std::move(definition));
     return std::make_unique<NodeResult>(nullptr, PSC::DataType::NONE);
 }
